@@ -27,9 +27,9 @@ theorem C01_fire_sound {c : Cfg} (rc : RunCfg) (inst : Instance) (st : Store) (h
 /-- the same for the engine run without working memory (`memo := false`): no `FrameHyp` needed; this is
     the statement the property oracle evaluates on the real engine -/
 theorem C01_fire_sound_memo_free {c : Cfg} (hm : c.memo = false) (rc : RunCfg) (inst : Instance) (st : Store)
-    (hp : MethodsPure c) (hi : SnapInj) (hw : WFEntries inst.entries) :
+    (hp : MethodsPure c) (hfl : FloatPF) (hw : WFEntries inst.entries) :
     execList (execute rc c inst st).trace = firedNames (refRun rc c inst st).fired := by
-  obtain ⟨_, htr, _⟩ := execute_refines hp hi rc inst st hw (frameHyp_memo_off hm _)
+  obtain ⟨_, htr, _⟩ := execute_refines hp (snapInj_of hfl) rc inst st hw (frameHyp_memo_off hm _)
   rw [htr]
   exact refRun_exec rc c inst st
 
